@@ -189,7 +189,41 @@ func runC09(c *Ctx) {
 			r.Ok("R3", key, c.pos(mu), "unconditional update under "+bp+".mu, key = "+kc+", value carries the given handler")
 		})
 		if n == 0 {
-			r.Fail("R3", fname(f)+":update", c.fpos(f), "the registration method does not update a handler map")
+			// the update is made by helpers: interpret the method (helpers, closures and table types included)
+			cases := []bool{false}
+			if name == "Handle" {
+				cases = []bool{false, true}
+			}
+			for _, isALL := range cases {
+				want := "update map=INDEX key=REGIDX handler=true locked=true"
+				label := "index"
+				if name == "Handle" {
+					want, label = "update map=NAME key=REGNAME handler=true locked=true", "name"
+					if isALL {
+						want, label = "update map=INDEX key=ALL handler=true locked=true", "ALL"
+					}
+				}
+				key := fmt.Sprintf("%s:update-%s", fname(f), label)
+				it := c.c09Register(f, isALL)
+				var ups []string
+				for _, e := range it.effects {
+					if strings.HasPrefix(e, "update ") {
+						ups = append(ups, e)
+					}
+				}
+				switch {
+				case it.wrong != "":
+					r.Fail("R3", key, c.fpos(f), it.wrong)
+				case it.bad != "":
+					r.Undecided("R3", key, c.fpos(f), "cannot interpret the registration method: "+it.bad)
+				case len(ups) == 1 && ups[0] == want:
+					r.Ok("R3", key, c.fpos(f), "interpreted: exactly one "+ups[0])
+				case len(ups) == 0:
+					r.Fail("R3", key, c.fpos(f), "the registration method does not update a handler map")
+				default:
+					r.Fail("R3", key, c.fpos(f), fmt.Sprintf("the registration performs %v, expected exactly one %q: the handler is not stored unconditionally under the caller's key with the exclusive lock held", ups, want))
+				}
+			}
 		}
 	}
 	// Handle: name registrations for non-ALL must go to m (so that ALL is not shadowing)
